@@ -13,7 +13,7 @@ import HL.Model.ParserNum
     parseDate parseStatus           -> parseDate parseStatus
     parsePosting parseAmount parseCost parseBalanceAssertion -> same names
         (the longer functions are cut into consecutive pieces — parsePosting: postingOpen,
-         postingTail; parseTransaction: txHeader = txDate2, txStatus, txCode, txDescription,
+         postingTail = postingClosing, postingAmount, postingCost, postingAssertion, lineComment; parseTransaction: txHeader = txDate2, txStatus, txCode, txDescription,
          txComment; parseAmount: amountLeadSign, amountLeftCommodity, amountSecondSign,
          amountNumber, amountRightCommodity; parseAccountDirective: accountNameRest, lineComment;
          parseCommodityDirective: commodityInline — same statements in the same order)
@@ -324,21 +324,39 @@ def postingOpen (st : PState σ) : (Status × Virtual × Option TokType) × PSta
   else if st.current.ty = .lparen then ((status, .unbalanced, some .rparen), advance E st)
   else ((status, .none, none), st)
 
+/-- A comment at the end of a directive or posting line: `(comment, tags)`. -/
+def lineComment (st : PState σ) : (Bytes × List Tag) × PState σ :=
+  if st.current.ty = .comment then
+    ((st.current.val, parseTags st.current.val st.current.pos), advance E st)
+  else (([], []), st)
+
+/-- `parsePosting`, lines 278-280: the closing bracket of a virtual posting. -/
+def postingClosing (closing : Option TokType) (st : PState σ) : PState σ :=
+  if closing = some st.current.ty then advance E st else st
+
+/-- `parsePosting`, lines 282-287. -/
+def postingAmount (st : PState σ) : Option Amount × PState σ :=
+  if st.current.ty = .commodity ∨ st.current.ty = .number ∨ st.current.ty = .sign then parseAmount E st
+  else (none, st)
+
+/-- `parsePosting`, lines 289-291. -/
+def postingCost (st : PState σ) : Option Cost × PState σ :=
+  if st.current.ty = .at ∨ st.current.ty = .atAt then parseCost E st else (none, st)
+
+/-- `parsePosting`, lines 293-295. -/
+def postingAssertion (st : PState σ) : Option Assertion × PState σ :=
+  if st.current.ty = .equals ∨ st.current.ty = .doubleEquals then parseBalanceAssertion E st
+  else (none, st)
+
 /-- `parsePosting`, lines 278-301: everything after the account name. -/
 def postingTail (closing : Option TokType) (st : PState σ) :
     (Option Amount × Option Cost × Option Assertion × Bytes × List Tag) × PState σ :=
-  let st := if closing = some st.current.ty then advance E st else st
-  let (amount, st) : Option Amount × PState σ :=
-    if st.current.ty = .commodity ∨ st.current.ty = .number ∨ st.current.ty = .sign then parseAmount E st
-    else (none, st)
-  let (cost, st) : Option Cost × PState σ :=
-    if st.current.ty = .at ∨ st.current.ty = .atAt then parseCost E st else (none, st)
-  let (assertion, st) : Option Assertion × PState σ :=
-    if st.current.ty = .equals ∨ st.current.ty = .doubleEquals then parseBalanceAssertion E st
-    else (none, st)
-  if st.current.ty = .comment then
-    ((amount, cost, assertion, st.current.val, parseTags st.current.val st.current.pos), advance E st)
-  else ((amount, cost, assertion, [], []), st)
+  let st := postingClosing E closing st
+  let (amount, st) := postingAmount E st
+  let (cost, st) := postingCost E st
+  let (assertion, st) := postingAssertion E st
+  let ((comment, tags), st) := lineComment E st
+  ((amount, cost, assertion, comment, tags), st)
 
 /-- `parsePosting`. -/
 def parsePosting (st : PState σ) : Option Posting × PState σ :=
@@ -473,12 +491,6 @@ def skipUntilF (stopAtComment : Bool) : Nat → PState σ → PState σ
 /-- `parseAccountDirective`, lines 455-458: a second token of the account name. -/
 def accountNameRest (name : Bytes) (st : PState σ) : Bytes × PState σ :=
   if st.current.ty = .text then (name ++ [0x20] ++ st.current.val, advance E st) else (name, st)
-
-/-- A comment at the end of a directive or posting line: `(comment, tags)`. -/
-def lineComment (st : PState σ) : (Bytes × List Tag) × PState σ :=
-  if st.current.ty = .comment then
-    ((st.current.val, parseTags st.current.val st.current.pos), advance E st)
-  else (([], []), st)
 
 /-- `parseAccountDirective`. -/
 def parseAccountDirective (startPos : Pos) (st : PState σ) : Option Directive × PState σ :=
